@@ -164,7 +164,7 @@ class quadtree(object):
 mulgrid_format_specification = {
     'header': [['type', '_convention', '_atmosphere_type',
                 'atmosphere_volume', 'atmosphere_connection', 
-                'unit_type', 'gdcx', 'gdcy', 'cntype',
+                '_unit_type', 'gdcx', 'gdcy', 'cntype',
                 'permeability_angle', '_block_order_int'],
                ['5s', '1d', '1d',
                 '10.2e', '10.2e',
@@ -619,6 +619,7 @@ class mulgrid(object):
         return self._unit_type
     def set_unit_type(self, unit_type):
         """Set unit type"""
+        if unit_type is None or unit_type.strip() == '': unit_type = '' # blank in file
         self._unit_type = unit_type
         self.unit_scale = {'': 1.0, 'FEET ': 0.3048}[unit_type]
     unit_type = property(get_unit_type, set_unit_type)
